@@ -9,7 +9,7 @@ L8 — the occurrence arithmetic of the code generator (C02, C16):
 * `UpdateAttributesEffectiveChoice` (group_repeating_attrs / merge_attrs /
   reset_symmetrical_choices);
 * `MergeAttributes.merge_duplicate_attrs`;
-* `DtdMapper.build_content` for DTD content models.
+* `DtdMapper.build_content` for DTD content models (repaired: paths as for XSD).
 -/
 import XsdataModel.Py.Basic
 import XsdataModel.Tables
@@ -172,29 +172,32 @@ def resetEffectivePath (path : List PathE) (index maxOccur : Nat) : List PathE :
   | some i => path.mapIdx fun j e => if j = i then { e with max := maxOccur } else e
   | none => path
 
-/-- `reset_symmetrical_choices`; `none` = the `assert attr.restrictions.sequence is not None`
-fails (a member of a symmetrical group without a sequence number) -/
-def resetSymmetrical (ss : List Site) : Option (List Site) :=
+/-- `reset_symmetrical_choices` (after the repair `fix: UpdateAttributesEffectiveChoice treats a merged
+group as a symmetrical sequence only when every attr of the group belongs to that sequence`): the
+set of sequences is collected over *all* attrs of the group, `None` included, and the group is
+symmetrical only if it is one sequence and not `None`; the two asserts of the loop cannot fire.
+(Before the repair attrs without a sequence were skipped, a group mixing attrs of a sequence with
+attrs outside of it passed the test and generation died with `AssertionError`.) -/
+def resetSymmetrical (ss : List Site) : List Site :=
   let choices := (ss.filterMap (·.choice)).eraseDups.filter (· ≤ 0)
-  choices.foldlM (fun (ss : List Site) (c : Int) =>
+  choices.foldl (fun (ss : List Site) (c : Int) =>
     let grp := ss.filter (·.choice = some c)
     let mins := (grp.map (·.min)).eraseDups
     let maxs := (grp.map (·.max)).eraseDups
-    let seqs := (grp.filterMap (fun s => s.sequence.bind fun q => if q = 0 then none else some q)).eraseDups
-    if mins.length = 1 && maxs.length = 1 && seqs.length = 1 then
-      if grp.any (·.sequence.isNone) then none else
-      some (ss.map fun s =>
+    let seqs := (grp.map (·.sequence)).eraseDups
+    if mins.length = 1 && maxs.length = 1 && seqs.length = 1 && !seqs.contains none then
+      ss.map fun s =>
         if s.choice = some c then
           match s.sequence with
           | some sq => { s with choice := none, path := resetEffectivePath s.path sq s.max }
           | none => s
-        else s)
-    else some ss) ss
+        else s
+    else ss) ss
 
 /-- `UpdateAttributesEffectiveChoice.process` -/
-def effectiveChoice (ss : List Site) : Option (List Site) :=
+def effectiveChoice (ss : List Site) : List Site :=
   let groups := groupRepeating ss
-  if groups.isEmpty then some ss else
+  if groups.isEmpty then ss else
   resetSymmetrical (mergeEffective ss (connectedComponents groups))
 
 /-! ### MergeAttributes.merge_duplicate_attrs -/
@@ -219,7 +222,7 @@ def mergeDuplicates (ss : List Site) : List Site :=
         else e) []
 
 /-- the three handlers in the order of `ClassContainer.processors[Steps.FLATTEN]` -/
-def occurs (ss : List Site) : Option (List Site) := (effectiveChoice (calculatePaths ss)).map mergeDuplicates
+def occurs (ss : List Site) : List Site := mergeDuplicates (effectiveChoice (calculatePaths ss))
 
 /-- `Restrictions.is_list` / `is_optional` -/
 def Site.isList (s : Site) : Bool := s.max > 1
@@ -245,36 +248,29 @@ def buildOccurs : Occur → Nat × Nat
   | .mult => (0, maxsize)
   | .plus => (1, maxsize)
 
-/-- keyword overrides handed down by an enclosing `OR` -/
-structure Kw where
-  min : Option Nat := none
-  max : Option Nat := none
-  choice : Option Int := none
-deriving Repr
-
-/-- `DtdMapper.build_content` : the element/value attrs in order (ids of OR nodes in visit order) -/
-def buildContent : DtdContent → Kw → Nat → List Site × Nat
-  | .element name o, kw, next =>
-    let (mn, mx) := buildOccurs o
-    ([{ name, index := 0, min := kw.min.getD mn, max := kw.max.getD mx, choice := kw.choice }], next)
-  | .pcdata o, kw, next =>
-    let (mn, mx) := buildOccurs o
-    ([{ name := "value".toList, index := 0, min := kw.min.getD mn, max := kw.max.getD mx, choice := kw.choice }], next)
-  | .seq _ l r, kw, next =>
-    let (a, n1) := match l with | some c => buildContent c kw next | none => ([], next)
-    let (b, n2) := match r with | some c => buildContent c kw n1 | none => ([], n1)
+/-- `DtdMapper.build_content` with `build_path` (after the repair `fix: DtdMapper combines the
+occurrence of enclosing sequence and choice nodes …`): the element/value attrs in order; every
+SEQ / OR node appends the step `("s"|"c", id(node), min, max)` of its own occurrence indicator to
+the restrictions path of the attrs below it (ids in visit order), the attr keeps the bounds of
+its own indicator; `CalculateAttributePaths` combines them as for XSD. -/
+def buildContent : DtdContent → List PathE → Nat → List Site × Nat
+  | .element name o, path, next =>
+    ([{ name, index := 0, min := (buildOccurs o).1, max := (buildOccurs o).2, path }], next)
+  | .pcdata o, path, next =>
+    ([{ name := "value".toList, index := 0, min := (buildOccurs o).1, max := (buildOccurs o).2, path }], next)
+  | .seq o l r, path, next =>
+    let path' := path ++ [⟨.s, next, (buildOccurs o).1, (buildOccurs o).2⟩]
+    let (a, n1) := match l with | some c => buildContent c path' (next + 1) | none => ([], next + 1)
+    let (b, n2) := match r with | some c => buildContent c path' n1 | none => ([], n1)
     (a ++ b, n2)
-  | .or o l r, kw, next =>
-    let (_, mx) := buildOccurs o
-    -- params = occurs(o) ∪ {choice: id, min_occurs: 0}, then the outer kwargs override
-    let kw' : Kw := { min := some (kw.min.getD 0), max := some (kw.max.getD mx),
-                      choice := some (kw.choice.getD (Int.ofNat next)) }
-    let (a, n1) := match l with | some c => buildContent c kw' (next + 1) | none => ([], next + 1)
-    let (b, n2) := match r with | some c => buildContent c kw' n1 | none => ([], n1)
+  | .or o l r, path, next =>
+    let path' := path ++ [⟨.c, next, (buildOccurs o).1, (buildOccurs o).2⟩]
+    let (a, n1) := match l with | some c => buildContent c path' (next + 1) | none => ([], next + 1)
+    let (b, n2) := match r with | some c => buildContent c path' n1 | none => ([], n1)
     (a ++ b, n2)
 
 def dtdSites (c : DtdContent) : List Site :=
-  let raw := (buildContent c {} 1).1
+  let raw := (buildContent c [] 1).1
   (List.range raw.length).zip raw |>.map fun (i, s) => { s with index := i }
 
 /-- the DTD content model as a particle (the language `lxml.etree.DTD` validates) -/
